@@ -245,7 +245,7 @@ func (g *Gen) generate1(fn *ssa.Function, con *Contract, heapOrder []string, hea
 	res = &FuncResult{Func: g.fnName(fn), Contract: con}
 	fc := &fnCtx{g: g, fn: fn, con: con, sc: NewScript(), heapSort: map[string]string{}, vals: map[ssa.Value]Val{},
 		ordinals: map[string]int{}, globals: map[string]string{}, implSyms: map[string]types.Type{}, pureDone: map[string]bool{},
-		globalVals: map[*ssa.Global]Val{}, globalSyms: map[string]*ssa.Global{}, locals: map[string]Val{}}
+		globalVals: map[*ssa.Global]Val{}, globalSyms: map[string]*ssa.Global{}, locals: map[string]Val{}, localIsAddr: map[string]bool{}}
 	fc.sc.Raw(prelude, preludeSyms...)
 	fc.so = newSorter(fc.sc)
 	for _, h := range heapOrder {
@@ -345,43 +345,8 @@ func (fc *fnCtx) globalInit(g *ssa.Global, st *State) (Val, bool) {
 	return fc.g.initValue(fc, g, st)
 }
 
-// specRecursive reports whether a spec function can reach itself through the
-// definitions (such functions are unfolded only to a fixed depth).
+// specRecursive: recursion points are declared with "rec"; all other spec functions are macros.
 func (g *Gen) specRecursive(name string) bool {
-	if g.specRec == nil {
-		g.specRec = map[string]bool{}
-		calls := map[string][]string{}
-		for n, sp := range g.CS.Specs {
-			if sp.Def == "" {
-				continue
-			}
-			m := map[string]bool{}
-			symbolsOf(strings.NewReplacer(",", " ", "!", " ", ".", " ", "*", " ", "=", " ", "<", " ", ">", " ", "&", " ", "|", " ", "+", " ", "-", " ").Replace(sp.Def), m)
-			for k := range m {
-				if g.CS.Specs[k] != nil {
-					calls[n] = append(calls[n], k)
-				}
-			}
-		}
-		for n := range g.CS.Specs {
-			seen := map[string]bool{}
-			var walk func(x string) bool
-			walk = func(x string) bool {
-				for _, c := range calls[x] {
-					if c == n {
-						return true
-					}
-					if !seen[c] {
-						seen[c] = true
-						if walk(c) {
-							return true
-						}
-					}
-				}
-				return false
-			}
-			g.specRec[n] = walk(n)
-		}
-	}
-	return g.specRec[name]
+	sp := g.CS.Specs[name]
+	return sp != nil && sp.Rec
 }
